@@ -367,7 +367,8 @@ def run(ctx: Context) -> None:
         ctx.check('R09.5', ok, "the CF clip mask carries copies of latitude and longitude under their own names", mc, dsc[0] if dsc else mc.node)
         am = ctx.func(f"{ARAKAWA}.ArakawaC.make_clip_mask")
         cm = [c for c in calls_in(am) if callee(ctx, am, c) == f"{ARAKAWA}.c_mask_from_centres"]
-        ok = len(cm) == 1 and len(cm[0].args) == 3 and norm_text(cm[0].args[2]) == 'self.dataset.coords' and all(ctx.flow(am).resolve(r.value) is cm[0] for r in am.returns())
+        _co = arg_or_kw(cm[0], 2, 'coords') if cm else None
+        ok = len(cm) == 1 and _co is not None and norm_text(_co) == 'self.dataset.coords' and all(ctx.flow(am).resolve(r.value) is cm[0] for r in am.returns())
         ctx.check('R09.5', ok, "the Arakawa clip mask carries the dataset's coordinates", am, cm[0] if cm else am.node)
         from .common import arakawa_mask_table
         table = arakawa_mask_table(ctx)
